@@ -23,7 +23,7 @@ RULE = ('runs generated from the seed: a world of 1-40 reference and 1-6 query s
         '(SignatureArray, SignatureList, plain list, HDF5Signatures on scratch disk none/gzip/lzf), dtype pair (6x6), chunk size, '
         'index selection with repeats, caller-supplied/poisoned/strided out buffer, OpenMP team size 1..16 (sometimes left over from the '
         'previous execution) and a seeded dynamic hand-out (thread policy x iteration order). A case is (function, container, dtype pair, '
-        'chunk regime, index regime, out regime, team size, schedule signature); non-trivial = >=2 team threads executed iterations or chunk < n references.')
+        'chunk regime, index regime, out regime, team size, schedule signature); non-trivial = >=2 team threads executed iterations or chunk < n references. Further drawn dimensions: mixed-width list containers, queries wider than the references with out-of-range indices, queries taken as a subset of the reference container, one-shot read faults on file-backed references followed by re-use, tuning-knob defaults; thorough: up to 200 references.')
 STATES_MEASURE = 'distinct OpenMP schedule signatures (hash of every (region, iteration, thread) hand-out of an execution)'
 
 REAL = ['gambit.metric (jaccarddist_array/_matrix/_pairwise, chunking, index selection, out handling)', 'compiled kernel gambit._cython.metric',
